@@ -17,7 +17,7 @@ RULE = ('Hypothesis-generated frame values of each of the 14 types (stream ids 0
         'same fields), canonical (serialize(parse(b)) == b), partial write through the real TransportTCP.send_frame '
         '(one frame into a copying writer, and sequences of 2-6 frames into a writer that keeps the objects it was '
         'handed, as asyncio does when the socket is not writable, read back after the last frame; a frame object written '
-        'again after its payload grew, and an object decoded from non-canonical bytes forwarded as it is) '
+        'again after its payload grew, and an object decoded from non-canonical bytes forwarded as it is; the value with the metadata flag set and empty metadata, which the fragmenter builds at an exact fit, must give its data back) '
         'against a recording writer (concatenated writes == 3-byte length + bytes), serialize_with_frame_size_header, '
         'all on both codec backends (cbitstruct and native struct, the second imported with cbitstruct masked) with '
         'identical results; plus exhaustive comparison of the two header parsers over 64 type codes x 1024 flag '
@@ -25,7 +25,7 @@ RULE = ('Hypothesis-generated frame values of each of the 14 types (stream ids 0
         'with content or a non-default flag/counter; distinct = distinct reference encoding.')
 ASSUMPTIONS = ['reference codec written from the RSocket 1.0 specification (harness/refcodec.py)',
                'EXT frames are outside (no class registered); frame values the encoder cannot represent '
-               '(metadata flag with empty metadata) are outside the statement']
+               '(metadata flag with empty metadata) are judged only on content coming back and on the forms agreeing']
 
 
 class RecWriter:
@@ -125,6 +125,42 @@ def check_value(v, vs_list=None):
                 raise
             out.append(viol('partial_write_raised', 'C02:partial_write_raised:reuse:%s' % v['type'], type=v['type'],
                             backend=var.name, exc=repr(e)))
+        # the value the library's own fragmenter builds when the metadata ends exactly on a fragment boundary (and what a
+        # decoded frame with a zero-length metadata block is): metadata flag set, metadata b''. Whether the encoder
+        # keeps the empty block or drops it with the flag, the content must come back and all forms must agree.
+        if not nv.get('metadata') and v['type'] in ('PAYLOAD', 'REQUEST_RESPONSE', 'REQUEST_FNF', 'REQUEST_STREAM',
+                                                    'REQUEST_CHANNEL', 'SETUP'):
+            try:
+                fe = frames.to_repo(var, v)
+                fe.flags_metadata = True
+                fe.metadata = b''
+                be = fe.serialize()
+                back = F.parse_or_ignore(be)
+                wd = bytes(nv.get('data') or b'')
+                gd = None if back is None else bytes(getattr(back, 'data', None) or b'')
+                gm = None if back is None else bytes(getattr(back, 'metadata', None) or b'')
+                if back is None or gd != wd or gm != b'':
+                    out.append(viol('decode_fields_differ', 'C02:decode_fields:%s:empty_metadata_with_flag' % v['type'],
+                                    type=v['type'], backend=var.name, got_data=None if gd is None else gd[:24].hex(),
+                                    want_data=wd[:24].hex(), got_metadata=None if gm is None else gm[:24].hex()))
+                elif back.serialize() != be:
+                    out.append(viol('reencode_differs', 'C02:reencode_differs:%s:empty_metadata_with_flag' % v['type'],
+                                    type=v['type'], backend=var.name, got=back.serialize()[:32].hex(), want=be[:32].hex()))
+                fe2 = frames.to_repo(var, v)
+                fe2.flags_metadata = True
+                fe2.metadata = b''
+                we = RecWriter()
+                common.drive(var.mod('rsocket.transports.tcp').TransportTCP(None, we).send_frame(fe2))
+                if b''.join(we.chunks) != refcodec.frame_with_length(be):
+                    out.append(viol('partial_write_differs', 'C02:partial_write:empty_metadata_with_flag:%s' % v['type'],
+                                    type=v['type'], backend=var.name, got=b''.join(we.chunks)[:32].hex(),
+                                    want=refcodec.frame_with_length(be)[:32].hex()))
+            except Exception as e:
+                is_repo, sig = common.repo_exception_sig(e)
+                if not is_repo:
+                    raise
+                out.append(viol('encode_raised', 'C02:encode_raised:%s:empty_metadata_with_flag' % v['type'],
+                                type=v['type'], backend=var.name, exc=repr(e)))
         # decode the reference bytes
         try:
             parsed = F.parse_or_ignore(ref)
